@@ -32,7 +32,8 @@ RULE = ('random 20x20..40x40 scenes per generator class: segmentation maps from 
         'masked / non-finite pixels of its own, or the catalogue is reordered; distinct by digest of all input '
         'arrays + row selection')
 CLASSES = ['touching', 'nested', 'single_pixel', 'edge', 'nonconsecutive', 'masked_cut', 'fully_masked',
-           'naninf', 'convolved', 'errbkg', 'units', 'localbkg', 'detcat', 'wcs', 'negative', 'ties']
+           'naninf', 'convolved', 'errbkg', 'units', 'localbkg', 'detcat', 'wcs', 'negative', 'ties',
+           'magnitude', 'oversub', 'undetected']
 MUST_REACH = ['photutils.segmentation.catalog:SourceCatalog.__init__',
               'photutils.segmentation.catalog:SourceCatalog._cutout_total_masks',
               'photutils.segmentation.catalog:SourceCatalog._moment_data_cutouts',
@@ -72,7 +73,7 @@ ASSUMPTIONS = ['numpy indexing/reductions, math.fsum and astropy.wcs (pixel_to_w
 REL = 1e-10          # relative tolerance in units of each quantity's natural scale (see report: measured <= 1e-13)
 
 
-def plan(tier):
+def plan(tier):  # noqa: D103
     if tier == 'thorough':
         return dict(shards=16, cases=9000, timeout=1500, budget_s=540)
     return dict(shards=8, cases=600, timeout=400, budget_s=55)
@@ -100,8 +101,19 @@ def build_scene(rng, cls, nmax=8):
     ny, nx = int(rng.integers(20, 41)), int(rng.integers(20, 41))
     if ny == nx:
         nx += 3
+    r = rng.random()
+    if r < 0.18:                                  # strongly elongated
+        ny, nx = int(rng.integers(4, 10)), int(rng.integers(45, 71))
+        sc.axes.append('shape_elongated')
+    elif r < 0.25:                                # 1 x N / N x 1
+        ny, nx = 1, int(rng.integers(8, 41))
+        sc.axes.append('shape_1xN')
+    if r < 0.25 and rng.random() < 0.5:
+        ny, nx = nx, ny
     sc.shape = (ny, nx)
     kinds = KINDS.get(cls, gen.ALL_KINDS)
+    if min(ny, nx) == 1:
+        kinds = ('rect', 'single', 'line', 'walk', 'rect')
     sc.kinds = list(kinds)
     label_mode = 'consecutive' if rng.random() < 0.5 else 'nonconsecutive'
     if cls == 'nonconsecutive':
@@ -114,6 +126,10 @@ def build_scene(rng, cls, nmax=8):
         mode = 'negative'
     if cls == 'ties':
         mode = 'ties' if rng.random() < 0.7 else 'flat'
+    if cls == 'oversub':
+        mode = 'oversub'
+    if cls == 'undetected':
+        mode = 'undetected'
     sc.data = gen.gen_data(rng, sc.shape, sc.seg, sc.labels, mode)
     sc.info['data_mode'] = mode
     if cls == 'single_pixel' and rng.random() < 0.4:
@@ -133,6 +149,8 @@ def build_scene(rng, cls, nmax=8):
     isint = sc.data.dtype.kind in 'iu'
     # optional ingredients (each class forces its own)
     want_conv = cls == 'convolved' or rng.random() < 0.35
+    if cls == 'undetected':
+        want_conv = rng.random() < 0.6             # otherwise the shapes come from a detection catalogue
     want_err = cls in ('errbkg',) or rng.random() < 0.5
     want_bkg = cls in ('errbkg',) or rng.random() < 0.4
     want_mask = cls in ('masked_cut', 'fully_masked') or rng.random() < 0.3
@@ -140,6 +158,9 @@ def build_scene(rng, cls, nmax=8):
         if rng.random() < 0.5:
             sc.conv = gen.box_smooth(sc.data.astype(float))
             sc.info['conv_mode'] = 'smooth'
+            if cls == 'undetected':               # detection image of another band (positive sources)
+                sc.conv = gen.gen_data(rng, sc.shape, sc.seg, sc.labels, 'smooth')
+                sc.info['conv_mode'] = 'detection_band'
         else:   # a field unrelated to data: any data/convolved mix-up becomes visible
             sc.conv = gen.gen_data(rng, sc.shape, sc.seg, sc.labels, 'noisy') - 2.0
             sc.info['conv_mode'] = 'unrelated'
@@ -156,6 +177,9 @@ def build_scene(rng, cls, nmax=8):
             mm = ['sparse', 'half', 'stripes', 'full_source'][int(rng.integers(0, 4))]
         sc.mask = gen.cut_mask(rng, sc.shape, sc.seg, sc.labels, mm)
         sc.info['mask_mode'] = mm
+        if rng.random() < 0.04:
+            sc.mask[...] = True                    # degenerate: everything masked
+            sc.axes.append('degenerate_everything_masked')
     if cls == 'naninf' or (not isint and rng.random() < 0.15):
         inseg = sc.seg > 0
         sc.data = sc.data.astype(float)
@@ -178,13 +202,72 @@ def build_scene(rng, cls, nmax=8):
             gen.sprinkle_nonfinite(rng, sc.error, inseg, 0.03, kinds=(np.nan, np.inf))
         if sc.background is not None and variant in (0, 3):
             sc.background[sel] = np.inf
-    if cls == 'units' or rng.random() < 0.1:
-        sc.unit = [u.Jy, u.electron / u.s, u.adu][int(rng.integers(0, 3))]
-    if cls == 'wcs' or rng.random() < 0.1:
+    if cls == 'units' or rng.random() < 0.2:
+        sc.unit = [u.Jy, u.electron / u.s, u.adu, u.erg / u.s / u.cm ** 2 / u.AA][int(rng.integers(0, 4))]
+    if cls == 'wcs' or rng.random() < 0.15:
         sc.wcs = gen.simple_wcs(rng, sc.shape)
-    if cls == 'localbkg' or rng.random() < 0.12:
+    if cls == 'localbkg' or rng.random() < 0.15:
         sc.localbkg_width = int(rng.choice([1, 2, 4, 8, 15]))
+    apply_generic_axes(rng, sc, cls)
     return sc
+
+
+def draw_magnitude(rng, tiny=False):
+    if tiny:
+        return float(10.0 ** rng.integers(-20, -9)) if rng.random() < 0.5 else float(2.0 ** rng.integers(-60, -30))
+    if rng.random() < 0.5:
+        return float(2.0 ** rng.integers(-60, 41))
+    return float(10.0 ** rng.integers(-20, 11))
+
+
+def apply_generic_axes(rng, sc, cls):
+    """Axes drawn independently of the generator class (about half of the scenes stay plain): overall
+    magnitude of every value-like input, memory layout / dtype of every array, call form of scalar and
+    sequence arguments.  The oracle reads the scene's canonical float64 / C-order arrays."""
+    isint = sc.data.dtype.kind in 'iu'
+    # (i) magnitude
+    if not isint and (cls == 'magnitude' or rng.random() < 0.3):
+        mag = draw_magnitude(rng, tiny=(cls == 'magnitude' and rng.random() < 0.5))
+        for name in ('data', 'conv', 'error', 'background'):
+            f = mag
+            if name != 'data' and rng.random() < 0.25:
+                f = draw_magnitude(rng)                # value-like inputs on their own scale
+            sc.scale(name, f)
+        sc.info['magnitude'] = mag
+        sc.axes.append('magnitude_nonunit')
+        if mag <= 1e-9:
+            sc.axes.append('magnitude_below_1e-9')
+        if mag >= 1e6:
+            sc.axes.append('magnitude_above_1e6')
+    # (iii) layout / container
+    if rng.random() < 0.4:
+        for name in ('data', 'conv', 'error', 'background', 'mask', 'seg'):
+            if getattr(sc, name) is None or rng.random() < 0.4:
+                continue
+            opts = ['F', 'strided']
+            if name in ('data', 'conv', 'error', 'background'):
+                opts.append('bigendian')
+            if name in ('data', 'conv') and not isint:
+                opts.append('float32')
+            how = opts[int(rng.integers(0, len(opts)))]
+            sc.layout[name] = how
+            sc.axes.append('layout_' + how)
+            if how == 'float32':
+                with np.errstate(all='ignore'):
+                    a = getattr(sc, name).astype(np.float32).astype(np.float64)
+                if np.all(np.isfinite(a) == np.isfinite(getattr(sc, name))):
+                    setattr(sc, name, a)               # values exactly representable in float32
+                else:
+                    del sc.layout[name]
+        if rng.random() < 0.3:
+            sc.layout['seg_dtype'] = ['int64', 'int32'][int(rng.integers(0, 2))]
+    # (ii) call form
+    if rng.random() < 0.3:
+        sc.callform['localbkg_width'] = ['npint', 'float'][int(rng.integers(0, 2))]
+        sc.axes.append('callform_localbkg_width')
+    if rng.random() < 0.3:
+        sc.callform['kron_params'] = ['list', 'array'][int(rng.integers(0, 2))]
+        sc.axes.append('callform_kron_params')
 
 
 def build_detection_scene(rng, sc):
@@ -203,6 +286,13 @@ def build_detection_scene(rng, sc):
     else:
         det.mask = gen.cut_mask(rng, sc.shape, sc.seg, sc.labels, 'sparse')
     det.info = dict(det_mask=['none', 'same', 'different'][mm])
+    if rng.random() < 0.3:
+        mag = draw_magnitude(rng)
+        det.scale('data', mag)
+        det.scale('conv', mag)
+        det.info['det_magnitude'] = mag
+    det.layout = {k: v for k, v in sc.layout.items() if k in ('seg', 'seg_dtype', 'mask')}
+    det.axes = []
     return det
 
 
@@ -881,7 +971,11 @@ def relation_renumber(case, sc, det_sc, mech, with_kron):
     rng = case.rng
     labels = [int(x) for x in sc.labels]
     n = len(labels)
-    new = [int(x) for x in rng.choice(np.arange(1, max(50, 4 * n)), size=n, replace=False)]
+    via_api = rng.random() < 0.5
+    pool = np.arange(1, max(50, 4 * n))
+    if via_api:
+        pool = np.setdiff1d(np.arange(1, max(labels) + max(50, 4 * n)), labels)   # unused numbers only
+    new = [int(x) for x in rng.choice(pool, size=n, replace=False)]
     if n > 1 and sorted(new) == [new[i] for i in np.argsort(labels)]:
         new = new[::-1]
     lut = np.zeros(int(sc.seg.max()) + 1, dtype=sc.seg.dtype)
@@ -896,13 +990,25 @@ def relation_renumber(case, sc, det_sc, mech, with_kron):
         det2.seg = sc2.seg.copy()
         det2.labels = sc2.labels
     c1 = gen.make_catalog(sc, gen.make_catalog(det_sc) if det_sc is not None else None)
-    c2 = gen.make_catalog(sc2, gen.make_catalog(det2) if det2 is not None else None).get_labels(new)
+    segm2 = None
+    if via_api:
+        # the same renumbering done through the public API on a SegmentationImage that was already in use
+        # (slices / labels cached by an earlier catalogue): one-to-one renames to unused numbers
+        segm2 = gen.make_segm(sc)
+        used = gen.make_catalog(sc, None, segm=segm2)
+        used.bbox_xmin, segm2.slices, segm2.areas
+        for a, b in zip(labels, new):
+            segm2.reassign_label(a, b)
+        case.check(np.array_equal(segm2.data, sc2.seg), 'reassign_label_renumbers', dict(mech, rel='renumber'))
+        case.note('relation_renumber_via_reassign_label')
+    c2 = gen.make_catalog(sc2, gen.make_catalog(det2) if det2 is not None else None, segm=segm2).get_labels(new)
     names = [p for p in REL_PROPS if p not in ('segment', 'segment_ma')]
     if sc.wcs is None:
         names = [p for p in names if not p.startswith('sky_')]
     if with_kron:
         names += ['kron_radius', 'kron_flux', 'kron_fluxerr']
-    _struct_rows_equal(case, c2, c1, names, 'row_unchanged_by_renumbering', dict(mech, rel='renumber'))
+    _struct_rows_equal(case, c2, c1, names, 'row_unchanged_by_renumbering',
+                       dict(mech, rel='renumber', via_reassign_label=bool(via_api)))
     # segment cutouts: same footprint pattern
     ok = all(np.array_equal(a == la, b == lb) for a, la, b, lb in zip(c1.segment, labels, c2.segment, new))
     case.check(ok, 'row_unchanged_by_renumbering', dict(mech, rel='renumber', prop='segment'))
@@ -921,6 +1027,10 @@ def run_case(case):
             det_sc.wcs = gen.simple_wcs(rng, sc.shape)
     labels = [int(x) for x in sc.labels]
     n = len(labels)
+    for ax in sc.axes:
+        case.note('axis_' + ax)
+    if not sc.axes:
+        case.note('axis_plain_scene')
 
     # row selection
     sel = rng.random()
